@@ -32,6 +32,7 @@
 -/
 import CelloProofs.Lemmas.Thr
 import CelloProofs.Lemmas.ThrCounter
+import CelloProofs.Lemmas.ThrArgs
 import CelloProofs.Props.C07
 import CelloGen.Exn
 import CelloGen.Thr
@@ -104,6 +105,8 @@ theorem C13_frame (cfg : Cfg) (g : G) (e : Ev) (u : Tid) (hu : e.tid ≠ u) :
   | rd t w => left; rw [(step_sync_frame cfg g (.rd t w) (by intros; simp) (by intros; simp) (by intros; simp)).1]
   | bind t w => left; rw [(step_sync_frame cfg g (.bind t w) (by intros; simp) (by intros; simp) (by intros; simp)).1]
   | rdo t w => left; rw [(step_sync_frame cfg g (.rdo t w) (by intros; simp) (by intros; simp) (by intros; simp)).1]
+  | arg t w os => left; rw [(step_sync_frame cfg g (.arg t w os) (by intros; simp) (by intros; simp) (by intros; simp)).1]
+  | rdarg t i => left; rw [(step_sync_frame cfg g (.rdarg t i) (by intros; simp) (by intros; simp) (by intros; simp)).1]
 
 /-- **The shared class cache is transparent.** Whatever the cache contains (whatever other threads looked up before, in
     whatever order) a lookup returns the declared instance, and the cache keeps holding declared instances only. -/
@@ -172,8 +175,68 @@ theorem C13_noninterference_refuted : ¬ C13_noninterference_statement cfgMark :
 theorem C13_mark_foreign_tls_witness :
     (localOuts 0 (run cfgMark witnessMark G.init).2).map Out.show = ["ok", "ok", "fin=[] garbage=0"] ∧
     (solo cfgMark 0 (proj 0 (run cfgMark witnessMark G.init).2) [] (G.init.thr 0)).2.map Out.show = ["ok", "ok", "fin=[1] garbage=0"] ∧
-    Isolated cfgMark witnessMark G.init = false ∧ KeepsWrappers cfgMark witnessMark G.init = true ∧
+    Isolated cfgMark witnessMark G.init = false ∧ IsolatedN cfgMark witnessMark G.init = false ∧
+    KeepsWrappers cfgMark witnessMark G.init = true ∧
     races cfgMark witnessMark G.init = 1 := by decide
+
+/-- **C13 non-interference, narrow hypothesis (audit2 item 2).**  `IsolatedN cfg s g`: at every step no sweep frees the
+    Thread object of a live thread, and *the table of a live thread never decides what a collection of another thread
+    finalises* (`walkNeutral`: the sweep is the same with and without the tables of the live threads whose Thread objects
+    the mark phase reaches) — exactly the logical territory of KF-C13-mark-foreign-tls; decidable.  Inside it are the two
+    regions `Isolated` excluded although the code is right there: (a) collections by the maker of `x = new(Thread, f)`
+    between `call(x)` and `join(x)` whenever the worker's thread-local values do not refer to an object only they keep
+    alive, (b) tables left behind by threads that have *finished* (or were never called): those are data the holder of
+    `x` reaches through `x`, nobody writes them, and what they refer to must survive.  Accordingly the thread running
+    alone is handed those tables: `projM` records, for each of `u`'s collections, the contents of the tables of the
+    not-live Thread objects it reaches (`frozenMarks`; `[]` whenever `u` holds no such object: then `projM` is `proj`).
+    For every such schedule and every thread `u`: final component and all local outcomes are those of `u` alone.
+    (What the model cannot say: in C the walk of a live thread's table races with that thread's `set`/`rem`/rehash and
+    with the prologue/epilogue of `Thread_Init_Run`; `races` counts those steps, the harness runs them under the baton only.) -/
+theorem C13_noninterference_walks (cfg : Cfg) (s : List Ev) (g : G) (hc : CacheOK cfg g.cache) (hiso : IsolatedN cfg s g = true)
+    (u : Tid) (c0 : Cache) (hc0 : CacheOK cfg c0) :
+    (run cfg s g).1.thr u = (solo cfg u (projM cfg u s g) c0 (g.thr u)).1 ∧
+    localOuts u (run cfg s g).2 = (solo cfg u (projM cfg u s g) c0 (g.thr u)).2 := by
+  have h := run_projM cfg u s g hc hiso
+  rw [solo_eq_spec cfg u _ c0 _ hc0]
+  exact ⟨h.1, h.2.1⟩
+
+/-- `Isolated` (no table is read at all) is a special case of `IsolatedN` -/
+theorem C13_isolated_is_narrower (cfg : Cfg) (s : List Ev) (g : G) (h : Isolated cfg s g = true) : IsolatedN cfg s g = true :=
+  isolatedN_of_isolated cfg s g h
+
+/-- (a) the documented usage with work in between: main holds `x`, the worker sets a thread-local value (an object of its
+    own) and allocates; main allocates and collects **while the worker runs**, twice, and once more after the join (the
+    finished worker's table then holds a pointer its teardown has finalised: the walk ignores pointers that are not in the
+    walker's registry).  Not `Isolated`, two steps are races in C, but `IsolatedN`; main's outcomes are those of its solo
+    run — with and without the tables -/
+def demoWalk : List Ev :=
+  [.loc 0 (.new 1 false false), .loc 0 (.new (thrBase + 1) false false), .bind 0 1, .spawn 0 1, .loc 1 .begin_,
+   .loc 1 (.new 1 false false), .loc 1 (.tset "a" ⟨1, 1⟩), .loc 0 (.collect [thrBase + 1]), .loc 1 (.churn 3), .loc 0 (.churn 2),
+   .loc 0 (.collect [thrBase + 1]), .loc 1 .end_, .join 0 1, .loc 0 (.collect [thrBase + 1])]
+
+example :
+    Isolated cfgMark demoWalk G.init = false ∧ IsolatedN cfgMark demoWalk G.init = true ∧ races cfgMark demoWalk G.init = 2 ∧
+    (localOuts 0 (run cfgMark demoWalk G.init).2).map Out.show =
+      ["ok", "ok", "fin=[1] garbage=0", "ok", "fin=[1] garbage=2", "fin=[1] garbage=2"] ∧
+    localOuts 0 (run cfgMark demoWalk G.init).2 = (solo cfgMark 0 (projM cfgMark 0 demoWalk G.init) [] TS.main).2 ∧
+    localOuts 0 (run cfgMark demoWalk G.init).2 = (solo cfgMark 0 (proj 0 (run cfgMark demoWalk G.init).2) [] TS.main).2 := by
+  decide
+
+/-- (b) a worker that has finished (and was joined) left a thread-local value behind that refers to main's object; main
+    collects holding `x`: the object survives — as it must, it is reachable through `x` — and that *is* the outcome of
+    main alone when it is handed the table (`projM`), whereas the solo run that ignores the table (`proj`) finalises it -/
+def demoLeftBehind : List Ev :=
+  [.loc 0 (.new 1 false false), .loc 0 (.new (thrBase + 1) false false), .bind 0 1, .spawn 0 1, .loc 1 .begin_,
+   .loc 1 (.tset "a" ⟨0, 1⟩), .loc 1 .end_, .join 0 1, .loc 0 (.collect [thrBase + 1])]
+
+example :
+    Isolated cfgMark demoLeftBehind G.init = false ∧ IsolatedN cfgMark demoLeftBehind G.init = true ∧
+    races cfgMark demoLeftBehind G.init = 0 ∧
+    frozenMarks cfgMark (run cfgMark (demoLeftBehind.take 8) G.init).1 0 (.collect [thrBase + 1]) = [⟨0, 1⟩] ∧
+    (localOuts 0 (run cfgMark demoLeftBehind G.init).2).map Out.show = ["ok", "ok", "fin=[] garbage=0"] ∧
+    localOuts 0 (run cfgMark demoLeftBehind G.init).2 = (solo cfgMark 0 (projM cfgMark 0 demoLeftBehind G.init) [] TS.main).2 ∧
+    (solo cfgMark 0 (proj 0 (run cfgMark demoLeftBehind G.init).2) [] TS.main).2.map Out.show = ["ok", "ok", "fin=[1] garbage=0"] := by
+  decide
 
 /-- a schedule in which no Thread object is collector-managed (every `struct Thread` is `new_raw`, static, or the main
     wrapper: no `bind` event) is isolated: no mark phase ever meets a Thread object -/
@@ -234,18 +297,19 @@ theorem C13_guarded_variant_loses_objects :
     (step cfgGuarded (run cfgGuarded (witnessHeld.take 11) G.init).1 (.loc 1 (.tget "a"))).2 = .val ⟨0, 1⟩ ∧
     KeepsWrappers cfgGuarded witnessHeld G.init = true ∧ KeepsWrappers cfgMark witnessHeld G.init = true := by decide
 
-/-- **C13 Mutex.** At every point of every schedule (`s1` is the part executed so far, `s2` any continuation) in which
-    no pthread primitive ran into undefined behaviour: for every Mutex `m`, the threads that are inside a section of `m`
+/-- **C13 Mutex.** At every point of every schedule (`s1` is the part executed so far; no hypothesis — the former
+    `_hub : noUB …` was not used by the proof and has been dropped, audit2 item 4): for every Mutex `m`, the threads that are inside a section of `m`
     — have acquired it by `lock`, a successful `trylock` or the entry of a `with` block and not yet released it — are at
     most one, none is inside twice, and the one inside is the holder of the pthread mutex.
     (`inside t m` counts acquisitions minus releases in the trace.)
     This is the invariant of the `holder` guard of `step` (a `lock` that finds a holder is `blocked`, an `unlock` by a
-    non-holder is `ub` and changes nothing — which is why the proof does not use `_hub`; the hypothesis states the
-    domain: past an `ub` the pthread mutex is in no defined state and the model's `holder` means nothing).  What ties
+    non-holder is `ub` and changes nothing: the event is not executed, so the statement needs no UB-freedom hypothesis;
+    what it says about the *code* ends at the first `ub` of the trace — past an `unlock` by a non-holder the pthread
+    mutex is in no defined state and the model's `holder` means nothing).  What ties
     the guard to the code: `Mutex_Lock/Trylock/Unlock` are single calls of the pthread primitive on the object's own
     mutex (`C13_source_shape_as_modelled`, oracle `c13-wrapper`), `with` is `start_in`/`stop_in` = the same two functions
     (`Mutex_instances`), and the in-section flag / counter oracles on real threads. -/
-theorem C13_mutex (cfg : Cfg) (s1 s2 : List Ev) (_hub : noUB (run cfg (s1 ++ s2) G.init).2 = true) (m : Nat) :
+theorem C13_mutex (cfg : Cfg) (s1 : List Ev) (m : Nat) :
     (∀ t, inside t m (run cfg s1 G.init).2 = if (run cfg s1 G.init).1.holder m = some t then 1 else 0) ∧
     (∀ t1 t2, inside t1 m (run cfg s1 G.init).2 ≥ 1 → inside t2 m (run cfg s1 G.init).2 ≥ 1 → t1 = t2) := by
   have key := fun t => run_inside_init cfg t m s1
@@ -421,6 +485,76 @@ theorem C13_join_publishes_object_refuted : ¬ C13_join_publishes_statement cfgM
     (by intro e he t'; simp only [List.mem_singleton] at he; subst he; simp) (by decide)
     _ (by rw [run_cons]; exact List.mem_cons_self) 0 rfl
   revert this
+  decide
+
+/-! ### arguments handed to a thread: `call(x, a…)` -/
+
+/-- the full statement of "a thread can use the arguments it was given": in every schedule in which the program itself
+    does not destroy them (`ArgsNotDestroyed`: live objects are handed over, nobody `del`s them, their owner does not
+    return while a live thread has them — unless they are roots), whatever a running thread reads from its argument
+    tuple is a live object -/
+def C13_args_statement (cfg : Cfg) : Prop :=
+  ∀ (s : List Ev), ArgsNotDestroyed cfg s G.init = true →
+    ∀ eo ∈ (run cfg s G.init).2, ∀ t i, eo.1 = .rdarg t i → ∀ o, eo.2 ≠ .dangling o
+
+/-- main makes an object in a helper's frame, hands it to a thread (`call(x, new(Int, …))`), the thread reads it; main
+    allocates until its collector runs — the object is no longer on main's stack — and the thread reads it again -/
+def witnessArg : List Ev :=
+  [.loc 0 (.new 1 false false), .spawn 0 1, .arg 0 1 [⟨0, 1⟩], .loc 1 .begin_, .rdarg 1 0, .loc 0 (.collect []), .rdarg 1 0]
+
+/-- **Refuted (KF-C13-thread-arg-collected).** `Thread_Call` keeps a raw copy of the argument tuple (`t->args`), `Thread_Mark`
+    presents `t->tls` only: nothing marks what the tuple refers to, so the spawner's collector finalises the argument
+    while the thread uses it (in C: `get(args, $I(0))` then any use → ValueError "bad magic number" / use after free;
+    reproduced 3 of 3, the `new_root` twin reads 42). -/
+theorem C13_args_refuted : ¬ C13_args_statement cfgMark := by
+  intro h
+  have hmem : ((.rdarg 1 0, .dangling ⟨0, 1⟩) : Ev × Out) ∈ (run cfgMark witnessArg G.init).2 :=
+    List.mem_of_getElem? (i := 6) (by rfl)
+  exact h witnessArg (by decide) _ hmem 1 0 rfl ⟨0, 1⟩ rfl
+
+/-- the witness side by side with its twins: the argument read back live, then dangling; with `new_root`, or when main
+    keeps the object on its stack, it stays live; the witness is outside `ArgsSafe` at exactly one step (the collection) -/
+theorem C13_thread_arg_collected_witness :
+    (run cfgMark witnessArg G.init).2.map (fun eo => eo.2.show) = ["ok", "spawned", "ok", "begun depth=0 gc=1 exc=1", "val=0.1", "fin=[1] garbage=0", "dangling=0.1"] ∧
+    ArgsNotDestroyed cfgMark witnessArg G.init = true ∧ ArgsSafe cfgMark witnessArg G.init = false ∧ argUnsafe cfgMark witnessArg G.init = 1 ∧
+    ((run cfgMark [.loc 0 (.new 1 true false), .spawn 0 1, .arg 0 1 [⟨0, 1⟩], .loc 1 .begin_, .loc 0 (.collect []), .rdarg 1 0] G.init).2.map
+        (fun eo => eo.2.show)).drop 4 = ["fin=[] garbage=0", "val=0.1"] ∧
+    ((run cfgMark [.loc 0 (.new 1 false false), .spawn 0 1, .arg 0 1 [⟨0, 1⟩], .loc 1 .begin_, .loc 0 (.collect [1]), .rdarg 1 0] G.init).2.map
+        (fun eo => eo.2.show)).drop 4 = ["fin=[] garbage=0", "val=0.1"] := by decide
+
+/-- **What holds (`…_partial`: the full statement is `C13_args_statement`, refuted above).** In every schedule in which,
+    in addition, every collection of an argument's owner finds the object somewhere else — on the owner's stack, among
+    its thread-local values, or as a root (`ArgsSafe`; decidable, the driver evaluates it on every schedule it runs) — no
+    argument of a live thread is ever finalised: every read of an argument by a running thread yields a live object. -/
+theorem C13_args_partial (cfg : Cfg) (s : List Ev) (h : ArgsSafe cfg s G.init = true) :
+    (∀ eo ∈ (run cfg s G.init).2, ∀ t i, eo.1 = .rdarg t i → ∀ o, eo.2 ≠ .dangling o) ∧
+    (∀ o ∈ liveArgs (run cfg s G.init).1, (((run cfg s G.init).1.thr o.owner).fin.contains o) = false) :=
+  ⟨run_args_safe cfg s G.init argInv_init h, run_argInv cfg s G.init argInv_init h⟩
+
+/-- … and what the thread reads is the object that was handed over: after such a schedule, `get(args, $I(i))` in the
+    running thread `t` whose tuple is `os` yields `os[i]`, live -/
+theorem C13_args_delivered (cfg : Cfg) (s : List Ev) (h : ArgsSafe cfg s G.init = true) (t : Tid) (i : Nat) (os : List Obj) (o : Obj)
+    (hr : running (run cfg s G.init).1 t = true) (hl : (run cfg s G.init).1.args.lookup t = some os) (hi : os[i]? = some o) :
+    step cfg (run cfg s G.init).1 (.rdarg t i) = ((run cfg s G.init).1, .val o) := by
+  have hI := (C13_args_partial cfg s h).2
+  have hmem : (t, os) ∈ (run cfg s G.init).1.args := by
+    obtain ⟨l1, l2, hl12, _⟩ := List.lookup_eq_some_iff.mp hl
+    rw [hl12]; simp
+  have hlive : isLive (((run cfg s G.init).1.thr t).phase) = true := by
+    have : ((run cfg s G.init).1.thr t).phase = .running := by simpa [running] using hr
+    simp [isLive, this]
+  exact step_rdarg_val cfg _ t i os o hr hl hi
+    (hI o ((mem_liveArgs _ o).mpr ⟨(t, os), hmem, hlive, List.mem_of_getElem? hi⟩))
+
+/-- `ArgsSafe` is met when the spawner keeps the argument on its stack across its collections (or makes it a root), and
+    the hypotheses of `C13_args_delivered` hold for the running worker: two arguments, both read back -/
+example :
+    let s : List Ev := [.loc 0 (.new 1 false false), .loc 0 (.new 2 true false), .spawn 0 1, .arg 0 1 [⟨0, 1⟩, ⟨0, 2⟩], .loc 1 .begin_,
+                   .loc 0 (.churn 3), .loc 0 (.collect [1]), .rdarg 1 0, .rdarg 1 1, .rdarg 1 2, .loc 1 .end_, .join 0 1, .loc 0 (.collect [])]
+    ArgsSafe cfgMark s G.init = true ∧
+    ((run cfgMark s G.init).2.map (fun eo => eo.2.show)).drop 6 =
+      ["fin=[] garbage=3", "val=0.1", "val=0.2", "noval", "fin=[] garbage=0", "joined", "fin=[1] garbage=3"] ∧
+    running (run cfgMark (s.take 7) G.init).1 1 = true ∧ (run cfgMark (s.take 7) G.init).1.args.lookup 1 = some [⟨0, 1⟩, ⟨0, 2⟩] := by
   decide
 
 /-- **C13 teardown / own collector.** In every schedule, every object that thread `t`'s collector ever finalised — by
@@ -718,12 +852,18 @@ example :
   (`races` counts the steps where it would be one; the harness keeps free-running schedules at `races = 0` and runs the
   witness in a forked child).  Known findings, each with its full statement kept as a `def …_statement` and refuted:
   KF-C13-mark-foreign-tls (`C13_noninterference_refuted`; the guarded variant of commit 80c795e, in which the statement
-  holds, was withdrawn by commit 0a0ad73: `C13_guarded_variant_loses_objects`), KF-C13-join-result-finalised
-  (`C13_join_publishes_object_refuted`).  Repaired by commit 484991f and kept as an OLD variant with its witness:
+  holds, was withdrawn by commit 0a0ad73: `C13_guarded_variant_loses_objects`; the hypothesis under which the statement is
+  proved was narrowed in round 3 from `Isolated` to `IsolatedN` — the table of a *live* thread never decides what another
+  thread's collection finalises: `C13_noninterference_walks`), KF-C13-join-result-finalised
+  (`C13_join_publishes_object_refuted`), KF-C13-thread-arg-collected (`C13_args_refuted`; `C13_args_partial` under `ArgsSafe`).
+  Repaired by commit 484991f and kept as an OLD variant with its witness:
   KF-C13-join-edeadlk (`C13_join_old_refuted`; full statement `C13_join_current_source`).  Not modelled: `set` on a Thread
   object other than `current(Thread)` (data handed to a thread before it is called), Thread objects as
-  thread-local values, `Thread_Assign` (copies another thread's table), arguments handed to a thread (`Thread_Call`
-  stores a raw copy of the tuple; the objects it refers to are not marked by anybody), mutual joins.
+  thread-local values, `Thread_Assign` (copies another thread's table), mutual joins, an uncaught exception in a worker
+  (`Exception_Error` exits the whole process: a counter-example, by design of the library, to "never diverts another
+  thread's control flow"; every generated exception program is wrapped in a catch-all).  A `with` block left by an
+  exception leaves the Mutex locked by the thread (the jump skips `stop_in`): in the model that is `lock` followed by the
+  exception program — the thread stays the holder, `C13_mutex` applies as it stands (op `wthrow`, corpus/thr_wthrow.ops).
 -/
 
 end Cello.Thr
